@@ -819,7 +819,7 @@ func c18Judge(c *Case, line string, cfg c18Cfg, exempt bool, cl int64, b *c18Bui
 		return
 	}
 	if status != 200 {
-		if cfg.maxDec < 0 && k.decAdv == 0 {
+		if cfg.maxDec < 0 && k.decAdv == 0 && cfg.maxBody > 0 && int64(decoded) > 16*cfg.maxBody {
 			c.Oracle("negative-decompressed-cap-not-disabled", desc("SetMaxDecompressedBodySize(<0) documents 'no cap', body refused"))
 		} else {
 			c.Oracle("within-caps-refused", desc("body within every cap refused"))
@@ -1001,7 +1001,7 @@ func c18Exec(c *Case) {
 					}
 				}
 				delta := int64(ms1.TotalAlloc - ms0.TotalAlloc)
-				if eff > 0 && int64(facts.total()) > 2*eff+(32<<20) && delta > 4*eff+(24<<20) {
+				if eff > 0 && int64(facts.total()) > eff && delta > 4*eff+(24<<20) {
 					c.Oracle("decoded-far-past-cap", fmt.Sprintf("%s: %d bytes allocated while decoding under a cap of %d", l, delta, eff))
 				}
 				c.Stat("bomb")
@@ -1154,7 +1154,7 @@ func c18Exec(c *Case) {
 					c.Oracle("unknown-coding-not-unsupported", fmt.Sprintf("%s: %v", l, err))
 				}
 			}
-			if bomb && max > 0 && int64(facts.total()) > 2*max+(32<<20) {
+			if bomb && max > 0 && int64(facts.total()) > max {
 				if delta := int64(ms1.TotalAlloc - ms0.TotalAlloc); delta > 4*max+(24<<20) {
 					c.Oracle("decoded-far-past-cap", fmt.Sprintf("%s: %d bytes allocated while decoding under a limit of %d", l, delta, max))
 				}
